@@ -157,8 +157,9 @@ def run(ctx, rule="C09.R6"):
     ctx.ob(rule, fi, bool(seen.get("none")) and all(seen["none"]), "parse_union with parsefrom None ends at the common start (one final seek back)", key="parse_union end none")
     ctx.ob(rule, fi, bool(seen.get("selected")) and all(seen["selected"]),
            "parse_union with a selected member never seeks back to the start at the end, and seeks to the recorded `forward` unless the selected member has the size of the last member (where the stream already stands)", key="parse_union end selected")
-    union_index(ctx, rule, fi)
-    ctx.floor(rule, 9)
+    sel = union_index(ctx, rule, fi)
+    union_forward_guard(ctx, rule, fi, sel)
+    ctx.floor(rule, 10)
 
 
 def union_index(ctx, rule, fi):
@@ -208,3 +209,77 @@ def union_index(ctx, rule, fi):
         ctx.ob(rule, fi, ok, "Union._emitparse: %s (got %s)" % (what, N.show(t) if t else "?"), key="parse_union index %s" % guard, node=st)
     if set(seen) != {"int", "str", "type(None)"}:
         ctx.ob(rule, fi, False, "Union._emitparse decides the selected index for None, int and str parsefrom (found %s)" % sorted(map(str, seen)), key="parse_union index cases")
+    return sel
+
+
+def truth_table(node, atom, names):
+    """{assignment tuple over `names`: bool} of a not/and/or tree whose leaves `atom` maps to (name, negated); None if a leaf is not recognised."""
+    import itertools
+
+    def ev(n, env):
+        if isinstance(n, ast.UnaryOp) and isinstance(n.op, ast.Not):
+            v = ev(n.operand, env)
+            return None if v is None else (not v)
+        if isinstance(n, ast.BoolOp):
+            vs = [ev(x, env) for x in n.values]
+            if any(v is None for v in vs):
+                return None
+            return all(vs) if isinstance(n.op, ast.And) else any(vs)
+        a = atom(n)
+        if a is None:
+            return None
+        return env[a[0]] != a[1]
+    out = {}
+    for vals in itertools.product((False, True), repeat=len(names)):
+        v = ev(node, dict(zip(names, vals)))
+        if v is None:
+            return None
+        out[vals] = v
+    return out
+
+
+def union_forward_guard(ctx, rule, fi, sel):
+    """`forward` is recorded after exactly the selected member and exactly when the final forward seek will be emitted: the in-loop guard is
+    (loop index == selected index) and not X, the final guard is not X, for one generation-time flag X."""
+    import re
+    tell_if = seek_if = None
+    var = None
+    for n in ast.walk(fi.node):
+        if not isinstance(n, ast.If):
+            continue
+        texts = [c.value for st in n.body for c in ast.walk(st) if isinstance(c, ast.Constant) and isinstance(c.value, str)]
+        for t in texts:
+            m = re.search(r"(\w+) = io\.tell\(\)", t)
+            if m and any(isinstance(p_, ast.For) for p_ in parents(n)):
+                tell_if, var = n, m.group(1)
+    for n in ast.walk(fi.node):
+        if isinstance(n, ast.If) and var and not any(isinstance(p_, ast.For) for p_ in parents(n)):
+            texts = [c.value for st in n.body for c in ast.walk(st) if isinstance(c, ast.Constant) and isinstance(c.value, str)]
+            if any(re.search(r"io\.seek\(%s\)" % re.escape(var), t) for t in texts):
+                seek_if = n
+    if tell_if is None or seek_if is None:
+        ctx.error("%s: Union._emitparse no longer guards the recorded forward position and the final forward seek with statement-level conditions; the guard rule cannot be decided" % rule)
+        return
+    loop = next(p_ for p_ in parents(tell_if) if isinstance(p_, ast.For))
+    iv = loop.target.elts[0].id if isinstance(loop.target, ast.Tuple) and isinstance(loop.target.elts[0], ast.Name) else None
+
+    def atom(n):
+        if isinstance(n, ast.Compare) and len(n.ops) == 1 and isinstance(n.ops[0], (ast.Eq, ast.NotEq)):
+            ids = sorted(x.id for x in (n.left, n.comparators[0]) if isinstance(x, ast.Name))
+            if ids == sorted([iv or "", sel]):
+                return ("EQ", isinstance(n.ops[0], ast.NotEq))
+        if isinstance(n, ast.Name) and n.id not in (iv, sel):
+            return ("X:" + n.id, False)
+        return None
+    flags = sorted({x.id for x in ast.walk(seek_if.test) if isinstance(x, ast.Name)})
+    if len(flags) != 1:
+        ctx.error("%s: the final forward seek of Union._emitparse is not guarded by a single generation-time flag" % rule)
+        return
+    x = "X:" + flags[0]
+    t1 = truth_table(tell_if.test, atom, ["EQ", x])
+    t2 = truth_table(seek_if.test, atom, [x])
+    if t1 is None or t2 is None:
+        ctx.error("%s: guard of the recorded forward position in Union._emitparse is not a not/and/or tree over (loop index == selected index) and the forward flag" % rule)
+        return
+    ok = all(v == (k[0] and not k[1]) for k, v in t1.items()) and all(v == (not k[0]) for k, v in t2.items())
+    ctx.ob(rule, fi, ok, "Union._emitparse records `%s` after exactly the selected member, and exactly when the final seek to it is emitted (guards: %s / %s)" % (var, ast.unparse(tell_if.test), ast.unparse(seek_if.test)), key="parse_union forward guard", node=tell_if)
